@@ -68,7 +68,7 @@ CLAIMS = {
             TECH_K + " (bounded lengths)", "§3 C09"),
     "C10": ("model_checking",
             "The shared time-window rule check_time_windows == documented rule E1103 for <= 3 (thorough: 4) windows (found defect F2, fixed); TimeWindow::intersects == inclusive overlap. "
-            "Job rules E1101/E1103/E1105/E1106/E1107: Err(code) iff the documented predicate is broken, over all four task kinds (one job, <= 2 tasks; found defect F3, fixed). Vehicle rules E1304 (reload windows may intersect each other, must touch the shift), E1306, E1307 against check_time_windows' contract (U10c). "
+            "Job rules E1101/E1103/E1105/E1106/E1107: Err(code) iff the documented predicate is broken, over all four task kinds (one job, one task; found defect F3, fixed). Vehicle rules E1304 (reload windows may intersect each other, must touch the shift), E1306, E1307 against check_time_windows' contract (U10c). "
             "Relation rules E1200, E1201, E1202, E1204, E1205, E1206 with is_reserved_job_id (U10d), routing rules E1500..E1505 with the shared get_duplicates helper (U10e), id rules E1100, E1104, E1300 (U10g), objective rules E1600-E1604, E1606, E1607 over the real Objective enum (U10f): "
             "each returns Err with its own code exactly when the documented rule is broken (bounded: 1-2 relations / profiles / vehicles / jobs, ids from a table of constant strings). The remaining rule functions (E1102, E1203, E1207, E1301, E1302, E1303, E1308, E1605), the rule-group assembly and the reader are not under contract.",
             "Bounded Kani harnesses; std String / Vec / HashMap / HashSet replaced by stated stand-ins (env/strings.rs: picks from a table of constant strings; env/vec_fixed.rs; env/collections_fixed_n.rs); RFC3339 parsing, the JSON reader and 8 of the 38 rule functions are NOT under contract.",
